@@ -1,7 +1,7 @@
 (** Entry points for message / transaction identity hashes (C16). *)
 From Coq Require Import List NArith ZArith String Bool.
 From Tongo Require Import Lib.Bits Lib.Res Lib.Sx Spec.Sha256 Model.BocParse Model.CellHash Spec.ReprHash
-  Model.BocSer Proofs.CellHashP Proofs.DagP Model.MsgHash Harness.H07.
+  Model.BocSer Proofs.CellHashP Proofs.DagP Model.MsgHash Model.MsgHist Harness.H07.
 Import ListNotations.
 Local Open Scope string_scope.
 Local Open Scope list_scope.
@@ -113,7 +113,119 @@ Definition run_tx (a : sx) : sx :=
     | Panic _ => SA "panic"
     end).
 
+(** *** histories on one variable (Model/MsgHist.v).  Input: ((source ...) (op ...)),
+    a source is (dag root tab0 tab1); ops: (0 i _) decode source i into the
+    variable, (1) Hash / Hash(false), (2 _) SourceBoc / Hash(true), (3) continue
+    with a copy of the variable.  Everything a decode of source i can produce is
+    computed once per source. *)
+Record tsrc := mktsrc { ts_lib : bool; ts_hr : res bytes; ts_dr : res tx; ts_boc : sx }.
+Record msrc := mkmsrc { ms_lib : bool; ms_hr : res bytes;
+                        ms_pr : res (info * option (bool * state_init) * bool * (bits * list cell)) }.
+
+Definition with_source {A} (a : sx) (f : oracle -> list node -> nat -> cell -> list (res imm) -> A) : option A :=
+  match a with
+  | SL [SL dag; SN root; SBits t0; SBits t1] =>
+      match nodes_of_sx dag with
+      | Some cells =>
+          let k := N.to_nat root in
+          let trees := trees_of 0 cells in
+          match nth_error trees k with
+          | Some (Ok c) => Some (f (table_oracle trees t0 t1) cells k c (eval_dag sha256 0 cells))
+          | _ => None
+          end
+      | None => None
+      end
+  | _ => None
+  end.
+
+Definition tsrc_of (a : sx) : option tsrc :=
+  with_source a (fun o cells k c imms =>
+    let hr := cached_hash_of imms k in
+    let hs := map (fun ri => do c <- ri; cell_hash c) imms in
+    mktsrc (is_library_cell c) hr (decode_tx_gen o hr (hash_cell sha256) c)
+           (match serialize cells hs [k] false false false with
+            | Ok out => SBytes out
+            | _ => SA "err"
+            end)).
+
+Definition msrc_of (a : sx) : option msrc :=
+  with_source a (fun o cells k c imms =>
+    mkmsrc (is_library_cell c) (cached_hash_of imms k) (parse_message o (open c))).
+
+Fixpoint all_some {A} (l : list (option A)) : option (list A) :=
+  match l with
+  | [] => Some []
+  | Some a :: t => match all_some t with Some r => Some (a :: r) | None => None end
+  | None :: _ => None
+  end.
+
+Definition ok_sx (b : bool) : sx := SA (if b then "ok" else "err").
+
+Fixpoint htx_go (srcs : list tsrc) (ops : list sx) (v : tvar nat) : list sx :=
+  match ops with
+  | [] => []
+  | op :: rest =>
+      match op with
+      | SL (SN 0 :: SN i :: _) =>
+          match nth_error srcs (N.to_nat i) with
+          | Some ts =>
+              let '(v', ok) := tx_assign_res (ts_lib ts) (ts_hr ts) (ts_dr ts) (N.to_nat i) v in
+              ok_sx ok :: htx_go srcs rest v'
+          | None => [sx_err "source"]
+          end
+      | SL (SN 1 :: _) => SBytes (tx_obs_hash v) :: htx_go srcs rest v
+      | SL (SN 2 :: _) =>
+          (match tx_obs_source v with
+           | Some i => match nth_error srcs i with Some ts => ts_boc ts | None => sx_err "source" end
+           | None => SA "err"
+           end) :: htx_go srcs rest v
+      | SL (SN 3 :: _) => SA "copy" :: htx_go srcs rest v
+      | _ => [sx_err "op"]
+      end
+  end.
+
+Fixpoint hmsg_go (srcs : list msrc) (ops : list sx) (v : mvar) : list sx :=
+  match ops with
+  | [] => []
+  | op :: rest =>
+      match op with
+      | SL (SN 0 :: SN i :: _) =>
+          match nth_error srcs (N.to_nat i) with
+          | Some ms =>
+              let '(v', ok) := msg_assign_res (ms_lib ms) (ms_hr ms) (ms_pr ms) v in
+              ok_sx ok :: hmsg_go srcs rest v'
+          | None => [sx_err "source"]
+          end
+      | SL (SN 1 :: _) => SBytes (mv_hash v) :: hmsg_go srcs rest v
+      | SL (SN 2 :: _) => sx_res SBytes (msg_obs_hash sha256 true v) :: hmsg_go srcs rest v
+      | SL (SN 3 :: _) => SA "copy" :: hmsg_go srcs rest v
+      | _ => [sx_err "op"]
+      end
+  end.
+
+(* c16.htx / c16.hmsg: ((source...) (op...)) -> (result per op) *)
+Definition run_htx (a : sx) : sx :=
+  match a with
+  | SL [SL srcs; SL ops] =>
+      match all_some (map tsrc_of srcs) with
+      | Some ts => SL (htx_go ts ops tvar_zero)
+      | None => sx_err "sources"
+      end
+  | _ => sx_err "shape"
+  end.
+Definition run_hmsg (a : sx) : sx :=
+  match a with
+  | SL [SL srcs; SL ops] =>
+      match all_some (map msrc_of srcs) with
+      | Some ms => SL (hmsg_go ms ops mvar_zero)
+      | None => sx_err "sources"
+      end
+  | _ => sx_err "shape"
+  end.
+
 Definition run (name : string) (a : sx) : sx :=
   if String.eqb name "c16.msg" then run_msg a
   else if String.eqb name "c16.tx" then run_tx a
+  else if String.eqb name "c16.htx" then run_htx a
+  else if String.eqb name "c16.hmsg" then run_hmsg a
   else sx_err "unknown case kind".
